@@ -8,7 +8,7 @@ import time
 from .assemble import assemble, ROOT
 from .rust_text import LostAnchor
 
-BUILD = os.path.join(ROOT, 'build')
+BUILD = os.environ.get('VERIF_BUILD_DIR') or os.path.join(ROOT, 'build')
 
 VERIF_FAIL = [
     'postcondition not satisfied',
